@@ -84,3 +84,7 @@ def gen_defaults(rng, tier, shard, nshards, boost):
 
 CHECKERS = {"documented_defaults": check_defaults}
 ORACLES = {"documented_defaults": gen_defaults}
+from props import _relational  # noqa: E402
+_xc, _xo = _relational.extra(PID)
+CHECKERS.update(_xc)
+ORACLES.update(_xo)
